@@ -27,6 +27,7 @@ type RangeIter struct {
 	KT    types.Type
 	VT    types.Type
 	IsStr bool
+	Instr *ssa.Range
 }
 
 // Cell is a private (non-escaping) local variable.
@@ -105,6 +106,13 @@ type State struct {
 	dead     bool
 	entry    *entryInfo
 	inlineDepth int
+	pendingAll bool
+	havocEpochBound Term // alloc counter at the last whole-heap havoc
+	compBound map[string]Term // per component: alloc counter when it was last written or havoc'd
+	pendingBound []string
+	baseAlloc Term
+	visited  map[*ssa.Range]Term // ghost: keys already yielded by a map range
+	lastRange *ssa.Range
 }
 
 type deferred struct {
@@ -142,6 +150,18 @@ func (st *State) clone() *State {
 		pathTag: append([]string(nil), st.pathTag...),
 		entry:  st.entry,
 		inlineDepth: st.inlineDepth,
+		visited: make(map[*ssa.Range]Term, len(st.visited)),
+		compBound: make(map[string]Term, len(st.compBound)),
+		pendingBound: append([]string(nil), st.pendingBound...),
+		baseAlloc: st.baseAlloc,
+		havocEpochBound: st.havocEpochBound,
+		lastRange: st.lastRange,
+	}
+	for k, v := range st.visited {
+		n.visited[k] = v
+	}
+	for k, v := range st.compBound {
+		n.compBound[k] = v
 	}
 	for k, v := range st.env {
 		n.env[k] = v
@@ -450,6 +470,36 @@ func (ex *Exec) loadStruct(h *HeapView, ref Term, t types.Type) Term {
 
 func (ex *Exec) setComp(st *State, comp string, t Term) {
 	st.heap.m[comp] = ex.define(st, "h", t)
+	if st.compBound == nil {
+		st.compBound = map[string]Term{}
+	}
+	st.compBound[comp] = st.alloc
+}
+
+// loadBound: references read from a component were allocated no later than
+// the component's last write (entry allocation counter if never written).
+func (ex *Exec) loadBound(st *State, p *Ptr) Term {
+	if p.Cell != nil {
+		return st.alloc
+	}
+	comp, _, _, _, _, whole := ex.slot(p)
+	if whole {
+		return st.heapBound
+	}
+	if st.havocEpochBound.S != "" {
+		// after a whole-heap havoc nothing older is known
+		if b, ok := st.compBound[comp]; ok {
+			return b
+		}
+		return st.havocEpochBound
+	}
+	if b, ok := st.compBound[comp]; ok {
+		return b
+	}
+	if st.baseAlloc.S != "" {
+		return st.baseAlloc
+	}
+	return st.heapBound
 }
 
 func (ex *Exec) storeTo(st *State, p *Ptr, v Term) {
@@ -548,6 +598,7 @@ func (ex *Exec) assumeLoaded(st *State, v Term, t types.Type) {
 
 // havocHeap replaces every component (new epoch).
 func (ex *Exec) havocHeap(st *State) {
+	st.pendingAll = true
 	ex.havocAll++
 	st.heap = &HeapView{m: map[string]Term{}, epoch: ex.nextEpoch()}
 }
@@ -564,6 +615,18 @@ func (ex *Exec) bumpAlloc(st *State) {
 	st.assume(mk(sBool, "<=", st.alloc, na))
 	st.alloc = na
 	st.heapBound = na
+	if st.compBound == nil {
+		st.compBound = map[string]Term{}
+	}
+	for _, c := range st.pendingBound {
+		st.compBound[c] = na
+	}
+	st.pendingBound = nil
+	if st.pendingAll {
+		st.havocEpochBound = na
+		st.compBound = map[string]Term{}
+		st.pendingAll = false
+	}
 }
 
 // newRef allocates a fresh reference.
